@@ -130,7 +130,9 @@ def part_distinguishable(ctx, pq, quick, rng):
                 counters["lossy"] += lossy
                 replay = {"occupation": ph["occ"], "overlap": np.asarray(ph["overlap"]).tolist() if ph["kind"] == "gram" else ph["overlap"], "steps": name}
                 ctx.case((ph["occ"], ph["kind"], repr(replay["overlap"]), tuple(name)))
-                tag = f"{ph['kind']}:{'lossy' if lossy else 'lossless'}"
+                cplx_gates = any(any(x[2] != 0 or x[3] != 0 for row in gates[st["gate"] - 1]["M"] for x in row) for st in rec["steps"] if "gate" in st)
+                # lossy states with a complex transmission matrix go through the kernel of the known finding (conjugation defect); keep them apart
+                tag = (f"lossy:{'complex' if cplx_gates else 'real'}-transmission:{ph['kind']}" if lossy else f"lossless:{ph['kind']}")
                 # optional post-selection of one mode on an outcome of positive probability
                 variants = [None]
                 cands = sorted({(m, s[m]) for s, p in law.items() if p > 1e-9 for m in range(d)})
